@@ -249,7 +249,10 @@ def handleScan (ds : DState) (sc : ScanCase) : DState × Json :=
       else []
     -- C12: a failure that is not one of the documented stop conditions must not keep later groups from being processed
     let mon12 : List String :=
-      if sc.obs.outcome.startsWith "panic:" && sc.obs.recs.length < ds.ctl.cfgs.length then
+      if sc.obs.outcome == "ok" && sc.obs.recs.length < ds.ctl.cfgs.length then
+        ["C12:" ++ ((sc.obs.recs.getLast?.map (·.name)).getD "?") ++ ":groups-after-it-not-processed-although-nothing-failed:" ++
+          toString (ds.ctl.cfgs.length - sc.obs.recs.length)]
+      else if sc.obs.outcome.startsWith "panic:" && sc.obs.recs.length < ds.ctl.cfgs.length then
         ["C12:" ++ ((sc.obs.recs.getLast?.map (·.name)).getD "?") ++ ":groups-after-it-not-processed:" ++
           toString (ds.ctl.cfgs.length - sc.obs.recs.length) ++ ":" ++ sc.obs.outcome]
       else if sc.obs.outcome.startsWith "fatal:unexpected" then
@@ -263,7 +266,7 @@ def handleScan (ds : DState) (sc : ScanCase) : DState × Json :=
       | some c, some pre, some post =>
         if !(ds.ctl.globalDry || c.dryMode) && !acceptedRaise ob.j && post.lockTime == some sc.nowReal && pre.lock.lockTime != some sc.nowReal then
           let d := ob.name ++ ":a cool-down was started in this scan although the cloud accepted no increase"
-          ["C18:" ++ d, "C02:" ++ d]
+          ["C18:" ++ d, "C02:" ++ d, "C20:" ++ d ++ " (the group now waits out a cool-down for capacity nobody asked for)"]
         else []
       | _, _, _ => [])
     -- C08 in dry mode: the nodes newly recorded as tainted must be the oldest of the untainted ones
